@@ -35,6 +35,19 @@ def pushIds (l : List Ev) : List Nat := l.filterMap Ev.pushId?
 def heldIds (s : State) : List Nat :=
   s.assigned.map (·.2.1) ++ s.items.map (·.1) ++ s.blocked.map (·.1)
 
+/-- the push futures that were failed or dropped: their item must be withdrawn -/
+def Ev.failedPush? : Ev → Option Nat
+  | Ev.push id o => if o = Out.ok then none else some id
+  | Ev.pop _ _ => none
+
+/-- the push futures that were accepted: their item must be held -/
+def Ev.okPush? : Ev → Option Nat
+  | Ev.push id o => if o = Out.ok then some id else none
+  | Ev.pop _ _ => none
+
+def failedPushes (l : List Ev) : List Nat := l.filterMap Ev.failedPush?
+def okPushes (l : List Ev) : List Nat := l.filterMap Ev.okPush?
+
 structure Inv (s : State) : Prop where
   len_le : s.items.length ≤ s.limit
   blocked_full : s.blocked ≠ [] → s.items.length = s.limit
@@ -50,9 +63,28 @@ structure Inv (s : State) : Prop where
       = if i < s.nextPop then 1 else 0
   push_once : ∀ i, (s.blocked.map (·.1)).count i + (pushIds s.inflight).count i
       + (pushIds s.completed).count i = if i < s.nextPush then 1 else 0
+  -- a producer is told the truth: the pushes that were failed (unblock_push, the item's own exception on admission,
+  -- destruction) are exactly the ones whose item was withdrawn
+  failed_withdrawn : ∀ i, (failedPushes s.inflight).count i + (failedPushes s.completed).count i = s.withdrawn.count i
+
+@[simp] theorem failedPushes_nil : failedPushes [] = [] := rfl
+@[simp] theorem failedPushes_append (a b : List Ev) : failedPushes (a ++ b) = failedPushes a ++ failedPushes b := by
+  simp [failedPushes]
+@[simp] theorem failedPushes_cons_pop (id o l) : failedPushes (Ev.pop id o :: l) = failedPushes l := by
+  simp [failedPushes, List.filterMap_cons, Ev.failedPush?]
+@[simp] theorem failedPushes_cons_ok (id l) : failedPushes (Ev.push id Out.ok :: l) = failedPushes l := by
+  simp [failedPushes, Ev.failedPush?]
+theorem failedPushes_cons_fail (id o l) (h : o ≠ Out.ok) : failedPushes (Ev.push id o :: l) = id :: failedPushes l := by
+  simp [failedPushes, Ev.failedPush?, h]
+@[simp] theorem failedPushes_cons_exc (id c l) : failedPushes (Ev.push id (Out.exc c) :: l) = id :: failedPushes l :=
+  failedPushes_cons_fail id _ l (by simp)
+@[simp] theorem failedPushes_cons_itemerr (id l) : failedPushes (Ev.push id Out.itemerr :: l) = id :: failedPushes l :=
+  failedPushes_cons_fail id _ l (by simp)
+@[simp] theorem failedPushes_cons_canceled (id l) : failedPushes (Ev.push id Out.canceled :: l) = id :: failedPushes l :=
+  failedPushes_cons_fail id _ l (by simp)
 
 theorem inv_init (limit : Nat) : Inv (init limit) := by
-  refine ⟨?_, ?_, ?_, ?_, ?_, ?_, ?_, ?_, ?_⟩ <;> simp [init, heldIds]
+  refine ⟨?_, ?_, ?_, ?_, ?_, ?_, ?_, ?_, ?_, ?_⟩ <;> simp [init, heldIds]
 
 theorem pairwise_snoc {l : List Nat} {n : Nat} (h : l.Pairwise (· < ·)) (hb : ∀ x ∈ l, x < n) :
     (l ++ [n]).Pairwise (· < ·) := by
@@ -73,13 +105,15 @@ theorem lt_of_mem_count {l w : List Nat} {n : Nat}
 
 macro "lsimp" : tactic => `(tactic| simp only [heldIds, List.map_append, List.map_cons, List.map_nil, List.count_append,
       List.count_cons, List.count_nil, pushIds_append, popIds_append, pushIds_cons_push, popIds_cons_push,
-      pushIds_cons_pop, popIds_cons_pop, pushIds_nil, popIds_nil, List.append_nil, List.nil_append, beq_iff_eq] at *)
+      pushIds_cons_pop, popIds_cons_pop, pushIds_nil, popIds_nil, failedPushes_append, failedPushes_cons_pop,
+      failedPushes_cons_ok, failedPushes_cons_exc, failedPushes_cons_itemerr, failedPushes_cons_canceled, failedPushes_nil,
+      List.append_nil, List.nil_append, beq_iff_eq] at *)
 
 syntax "count_tac" ident : tactic
 macro_rules | `(tactic| count_tac $h) => `(tactic| (lsimp; (try split at $h:ident) <;> (repeat (first | omega | split))))
 
 theorem inv_push (s : State) (v : Nat) (h : Inv s) : Inv (stepPush s v).1 := by
-  obtain ⟨h1, h2, h3, h4, h5, h6, h7, h8, h9⟩ := h
+  obtain ⟨h1, h2, h3, h4, h5, h6, h7, h8, h9, h10⟩ := h
   have hlt := lt_of_mem_count h4
   unfold stepPush
   cases hw : s.waiters with
@@ -87,7 +121,7 @@ theorem inv_push (s : State) (v : Nat) (h : Inv s) : Inv (stepPush s v).1 := by
     simp only [hw] at *
     by_cases hfull : s.items.length ≥ s.limit
     · simp only [hfull, ite_true]
-      refine ⟨h1, ?_, ?_, ?_, ?_, h6, h7, h8, ?_⟩
+      refine ⟨h1, ?_, ?_, ?_, ?_, h6, h7, h8, ?_, h10⟩
       · intro _; simp only; omega
       · simp
       · intro i; have hh := h4 i; count_tac hh
@@ -99,7 +133,7 @@ theorem inv_push (s : State) (v : Nat) (h : Inv s) : Inv (stepPush s v).1 := by
         by_cases hb : s.blocked = []
         · exact hb
         · have := h2 hb; omega
-      refine ⟨?_, ?_, ?_, ?_, ?_, h6, h7, ?_, ?_⟩
+      refine ⟨?_, ?_, ?_, ?_, ?_, h6, h7, ?_, ?_, ?_⟩
       · simp; omega
       · simp [hb]
       · simp
@@ -108,11 +142,12 @@ theorem inv_push (s : State) (v : Nat) (h : Inv s) : Inv (stepPush s v).1 := by
         exact pairwise_snoc h5 hlt
       · intro i; have hh := h8 i; count_tac hh
       · intro i; have hh := h9 i; count_tac hh
+      · intro i; have hh := h10 i; count_tac hh
   | cons w ws =>
     simp only [hw] at *
     obtain ⟨hi, hb⟩ := h3 (by simp)
     simp only [heldIds, hi, hb, List.map_nil, List.append_nil] at h1 h2 h4 h5 h9 hlt ⊢
-    refine ⟨?_, ?_, ?_, ?_, ?_, ?_, ?_, ?_, ?_⟩
+    refine ⟨?_, ?_, ?_, ?_, ?_, ?_, ?_, ?_, ?_, ?_⟩
     · simp
     · simp
     · simp
@@ -123,88 +158,22 @@ theorem inv_push (s : State) (v : Nat) (h : Inv s) : Inv (stepPush s v).1 := by
     · simpa using h7
     · intro i; have hh := h8 i; count_tac hh
     · intro i; have hh := h9 i; count_tac hh
+    · intro i; have hh := h10 i; count_tac hh
 
-theorem pairwise_tail_snoc {a b : Nat} {A I B : List Nat}
-    (h : (A ++ (a :: I) ++ (b :: B)).Pairwise (· < ·)) : ((A ++ [a]) ++ (I ++ [b]) ++ B).Pairwise (· < ·) := by
-  have : (A ++ [a]) ++ (I ++ [b]) ++ B = A ++ (a :: I) ++ (b :: B) := by simp
-  rw [this]; exact h
+theorem inv_pushMv (s : State) (v g n : Nat) (h : Inv s) : Inv (stepPushMv s v g n).1 := by
+  unfold stepPushMv
+  split
+  · exact h
+  · exact inv_push s v h
 
-theorem inv_pop (s : State) (hl : 0 < s.limit) (h : Inv s) : Inv (stepPop s).1 := by
-  obtain ⟨h1, h2, h3, h4, h5, h6, h7, h8, h9⟩ := h
-  unfold stepPop
-  cases hi : s.items with
-  | nil =>
-    have hb : s.blocked = [] := by
-      by_cases hb : s.blocked = []
-      · exact hb
-      · have := h2 hb; simp [hi] at this; omega
-    simp only [hi, hb, heldIds] at *
-    refine ⟨?_, ?_, ?_, ?_, ?_, ?_, ?_, ?_, ?_⟩ <;> (try dsimp only [heldIds])
-    · simp
-    · simp
-    · simp
-    · simpa using h4
-    · simpa using h5
-    · simp only [← List.append_assoc]
-      exact pairwise_snoc h6 h7
-    · intro i hi'
-      simp only [← List.append_assoc, List.mem_append, List.mem_singleton] at hi'
-      rcases hi' with hi' | hi'
-      · have := h7 i (by simpa using hi'); omega
-      · omega
-    · intro i; have hh := h8 i; count_tac hh
-    · exact h9
-  | cons x xs =>
-    have hw : s.waiters = [] := by
-      by_cases hw : s.waiters = []
-      · exact hw
-      · have := (h3 hw).1; simp [hi] at this
-    cases hb : s.blocked with
-    | nil =>
-      simp only [hi, hb, hw, heldIds] at *
-      refine ⟨?_, ?_, ?_, ?_, ?_, ?_, ?_, ?_, ?_⟩ <;> (try dsimp only [heldIds])
-      · simp at h1 ⊢; omega
-      · simp
-      · simp
-      · intro i; have hh := h4 i; count_tac hh
-      · simpa using h5
-      · simp only [List.append_nil, List.map_append, List.map_cons, List.map_nil] at *
-        exact pairwise_snoc h6 h7
-      · intro i hi'
-        simp only [List.append_nil, List.map_append, List.map_cons, List.map_nil, List.mem_append, List.mem_singleton] at *
-        rcases hi' with hi' | hi'
-        · have := h7 i hi'; omega
-        · omega
-      · intro i; have hh := h8 i; count_tac hh
-      · intro i; have hh := h9 i; count_tac hh
-    | cons b bs =>
-      simp only [hi, hb, hw, heldIds] at *
-      refine ⟨?_, ?_, ?_, ?_, ?_, ?_, ?_, ?_, ?_⟩ <;> (try dsimp only [heldIds])
-      · have := h2 (by simp); simp at this ⊢; omega
-      · intro _; have := h2 (by simp); simp at this ⊢; omega
-      · simp
-      · intro i; have hh := h4 i; count_tac hh
-      · simp only [List.map_append, List.map_cons, List.map_nil] at *
-        exact pairwise_tail_snoc h5
-      · simp only [List.append_nil, List.map_append, List.map_cons, List.map_nil] at *
-        exact pairwise_snoc h6 h7
-      · intro i hi'
-        simp only [List.append_nil, List.map_append, List.map_cons, List.map_nil, List.mem_append, List.mem_singleton] at *
-        rcases hi' with hi' | hi'
-        · have := h7 i hi'; omega
-        · omega
-      · intro i; have hh := h8 i; count_tac hh
-      · intro i; have hh := h9 i; count_tac hh
-
-
-theorem inv_upop (s : State) (c : Nat) (h : Inv s) : Inv (stepUpop s c).1 := by
-  obtain ⟨h1, h2, h3, h4, h5, h6, h7, h8, h9⟩ := h
-  unfold stepUpop
+theorem inv_pushThrow (s : State) (h : Inv s) : Inv (stepPushThrow s).1 := by
+  obtain ⟨h1, h2, h3, h4, h5, h6, h7, h8, h9, h10⟩ := h
+  unfold stepPushThrow
   cases hw : s.waiters with
-  | nil => exact ⟨h1, h2, h3, h4, h5, h6, h7, h8, h9⟩
+  | nil => exact ⟨h1, h2, h3, h4, h5, h6, h7, h8, h9, h10⟩
   | cons w ws =>
     simp only [hw] at *
-    refine ⟨h1, h2, ?_, h4, h5, ?_, ?_, ?_, ?_⟩ <;> (try dsimp only [heldIds])
+    refine ⟨h1, h2, ?_, h4, h5, ?_, ?_, ?_, ?_, ?_⟩ <;> (try dsimp only [heldIds])
     · intro _; exact h3 (by simp)
     · refine h6.sublist ?_
       simp
@@ -215,23 +184,54 @@ theorem inv_upop (s : State) (c : Nat) (h : Inv s) : Inv (stepUpop s c).1 := by
       · right; right; exact hi
     · intro i; have hh := h8 i; count_tac hh
     · intro i; have hh := h9 i; count_tac hh
+    · intro i; have hh := h10 i; count_tac hh
 
-theorem inv_upush (s : State) (c : Nat) (h : Inv s) : Inv (stepUpush s c).1 := by
-  obtain ⟨h1, h2, h3, h4, h5, h6, h7, h8, h9⟩ := h
-  unfold stepUpush
-  cases hb : s.blocked with
-  | nil => exact ⟨h1, h2, h3, h4, h5, h6, h7, h8, h9⟩
-  | cons b bs =>
-    simp only [hb, heldIds] at *
-    refine ⟨h1, ?_, ?_, ?_, ?_, h6, h7, ?_, ?_⟩ <;> (try dsimp only [heldIds])
-    · intro _; exact h2 (by simp)
-    · intro hw; have := h3 hw; simp at this
-    · intro i; have hh := h4 i; count_tac hh
-    · refine h5.sublist ?_
+theorem admitLoop_spec (g n : Nat) : ∀ (bl : List (Nat × Nat)) (k : Nat),
+    bl = (admitLoop g n k bl).1 ++ (admitLoop g n k bl).2.1.toList ++ (admitLoop g n k bl).2.2
+    ∧ ((admitLoop g n k bl).2.1 = none → (admitLoop g n k bl).2.2 = []) := by
+  intro bl
+  induction bl with
+  | nil => intro k; simp [admitLoop]
+  | cons b bs ih =>
+    intro k
+    unfold admitLoop
+    by_cases ht : throwsAt g n k = true
+    · simp only [ht, if_true]
+      obtain ⟨e1, e2⟩ := ih (k + 1)
+      refine ⟨?_, e2⟩
+      simp only [List.cons_append]
+      congr 1
+    · simp only [ht]
       simp
-    · intro i; have hh := h8 i; count_tac hh
-    · intro i; have hh := h9 i; count_tac hh
 
+theorem admitLoop_faults (g n : Nat) : ∀ (bl : List (Nat × Nat)) (k : Nat),
+    (∀ j, j < (admitLoop g n k bl).1.length → throwsAt g n (k + j) = true)
+    ∧ ((admitLoop g n k bl).2.1 ≠ none → throwsAt g n (k + (admitLoop g n k bl).1.length) = false) := by
+  intro bl
+  induction bl with
+  | nil => intro k; simp [admitLoop]
+  | cons b bs ih =>
+    intro k
+    unfold admitLoop
+    by_cases ht : throwsAt g n k = true
+    · simp only [ht, if_true]
+      obtain ⟨e1, e2⟩ := ih (k + 1)
+      refine ⟨?_, ?_⟩
+      · intro j hj
+        cases j with
+        | zero => simpa using ht
+        | succ j =>
+          have := e1 j (by simpa using hj)
+          have e : k + (j + 1) = k + 1 + j := by omega
+          rw [e]; exact this
+      · intro hne
+        have := e2 hne
+        have e : k + ((b :: (admitLoop g n (k + 1) bs).1).length) = k + 1 + (admitLoop g n (k + 1) bs).1.length := by
+          simp only [List.length_cons]; omega
+        rw [e]; exact this
+    · simp only [ht]
+      simp
+      simpa using ht
 
 theorem popIds_map_push {α} (l : List α) (f : α → Nat) (o : Out) :
     popIds (l.map (fun b => Ev.push (f b) o)) = [] := by
@@ -257,15 +257,191 @@ theorem pushIds_map_push {α} (l : List α) (f : α → Nat) (o : Out) :
   | nil => rfl
   | cons x xs ih => simp [ih]
 
+theorem failedPushes_map_pop {α} (l : List α) (f : α → Nat) (o : Out) :
+    failedPushes (l.map (fun b => Ev.pop (f b) o)) = [] := by
+  induction l with
+  | nil => rfl
+  | cons x xs ih => simp [ih]
+
+theorem failedPushes_map_push {α} (l : List α) (f : α → Nat) (o : Out) (h : o ≠ Out.ok) :
+    failedPushes (l.map (fun b => Ev.push (f b) o)) = l.map f := by
+  induction l with
+  | nil => rfl
+  | cons x xs ih => simp [ih, failedPushes_cons_fail _ _ _ h]
+
+/-- the state after a `pop` that delivered `x` and whose admission loop failed `f`, admitted `a`, left `r` -/
+def popState (s : State) (x : Nat × Nat) (xs f : List (Nat × Nat)) (a : Option (Nat × Nat)) (r : List (Nat × Nat)) : State :=
+  { s with items := xs ++ a.toList, blocked := r, nextPop := s.nextPop + 1,
+           withdrawn := s.withdrawn ++ f.map (·.1),
+           inflight := s.inflight ++ f.map (fun b => Ev.push b.1 Out.itemerr) ++ a.toList.map (fun b => Ev.push b.1 Out.ok),
+           assigned := s.assigned ++ [(s.nextPop, x)],
+           completed := s.completed ++ [Ev.pop s.nextPop (Out.val x.1 x.2)] }
+
+theorem sublist_drop_mid (A I F B : List Nat) (a : Nat) :
+    ((A ++ [a]) ++ I ++ B).Sublist (A ++ (a :: I) ++ (F ++ B)) := by
+  have : A ++ (a :: I) ++ (F ++ B) = (A ++ [a]) ++ I ++ (F ++ B) := by simp
+  rw [this]
+  exact List.Sublist.append (List.Sublist.refl _) (List.sublist_append_right F B)
+
+theorem inv_popState (s : State) (x : Nat × Nat) (xs f : List (Nat × Nat)) (a : Option (Nat × Nat)) (r : List (Nat × Nat))
+    (h : Inv s) (hi : s.items = x :: xs) (hb : s.blocked = f ++ a.toList ++ r)
+    (ha : a = none → r = []) : Inv (popState s x xs f a r) := by
+  obtain ⟨h1, h2, h3, h4, h5, h6, h7, h8, h9, h10⟩ := h
+  have hw : s.waiters = [] := by
+    by_cases hw : s.waiters = []
+    · exact hw
+    · have := (h3 hw).1; simp [hi] at this
+  have e1 := popIds_map_push f (·.1) Out.itemerr
+  have e4 := pushIds_map_push f (·.1) Out.itemerr
+  have e5 := failedPushes_map_push f (·.1) Out.itemerr (by simp)
+  unfold popState
+  cases a with
+  | none =>
+    have hr := ha rfl
+    subst hr
+    simp only [Option.toList_none, List.append_nil, List.map_nil] at hb ⊢
+    simp only [hi, hb, hw, heldIds] at *
+    refine ⟨?_, ?_, ?_, ?_, ?_, ?_, ?_, ?_, ?_, ?_⟩ <;> (try dsimp only [heldIds])
+    · simp at h1 ⊢; omega
+    · simp
+    · simp
+    · intro i; have hh := h4 i; count_tac hh
+    · refine h5.sublist ?_
+      simp only [List.map_append, List.map_cons, List.map_nil, List.append_nil]
+      have := sublist_drop_mid (s.assigned.map (·.2.1)) (xs.map (·.1)) (f.map (·.1)) [] x.1
+      simp at this ⊢
+    · simp only [List.append_nil, List.map_append, List.map_cons, List.map_nil] at *
+      exact pairwise_snoc h6 h7
+    · intro i hi'
+      simp only [List.append_nil, List.map_append, List.map_cons, List.map_nil, List.mem_append, List.mem_singleton] at *
+      rcases hi' with hi' | hi'
+      · have := h7 i hi'; omega
+      · omega
+    · intro i; have hh := h8 i; simp only [popIds_append, e1] at *; count_tac hh
+    · intro i; have hh := h9 i; simp only [pushIds_append, e4] at *; count_tac hh
+    · intro i; have hh := h10 i; simp only [failedPushes_append, e5] at *; count_tac hh
+  | some b =>
+    simp only [Option.toList_some, List.map_cons, List.map_nil] at hb ⊢
+    simp only [hi, hb, hw, heldIds] at *
+    have hfull := h2 (by simp)
+    refine ⟨?_, ?_, ?_, ?_, ?_, ?_, ?_, ?_, ?_, ?_⟩ <;> (try dsimp only [heldIds])
+    · simp at hfull ⊢; omega
+    · intro _; simp at hfull ⊢; omega
+    · simp
+    · intro i; have hh := h4 i; count_tac hh
+    · refine h5.sublist ?_
+      simp only [List.map_append, List.map_cons, List.map_nil]
+      have := sublist_drop_mid (s.assigned.map (·.2.1)) (xs.map (·.1)) (f.map (·.1)) (b.1 :: r.map (·.1)) x.1
+      simp at this ⊢
+    · simp only [List.append_nil, List.map_append, List.map_cons, List.map_nil] at *
+      exact pairwise_snoc h6 h7
+    · intro i hi'
+      simp only [List.append_nil, List.map_append, List.map_cons, List.map_nil, List.mem_append, List.mem_singleton] at *
+      rcases hi' with hi' | hi'
+      · have := h7 i hi'; omega
+      · omega
+    · intro i; have hh := h8 i; simp only [popIds_append, e1] at *; count_tac hh
+    · intro i; have hh := h9 i; simp only [pushIds_append, e4] at *; count_tac hh
+    · intro i; have hh := h10 i; simp only [failedPushes_append, e5] at *; count_tac hh
+
+theorem stepPopF_eq (s : State) (g n : Nat) (x : Nat × Nat) (xs : List (Nat × Nat)) (hi : s.items = x :: xs)
+    (ht : throwsAt g n 1 = false) :
+    stepPopF s g n = (popState s x xs (admitLoop g n 2 s.blocked).1 (admitLoop g n 2 s.blocked).2.1 (admitLoop g n 2 s.blocked).2.2,
+                      Res.pop s.nextPop (some (Out.val x.1 x.2))) := by
+  unfold stepPopF popState
+  simp [hi, ht]
+
+theorem inv_popF (s : State) (g n : Nat) (hl : 0 < s.limit) (h : Inv s) : Inv (stepPopF s g n).1 := by
+  cases hi : s.items with
+  | nil =>
+    obtain ⟨h1, h2, h3, h4, h5, h6, h7, h8, h9, h10⟩ := h
+    unfold stepPopF
+    have hb : s.blocked = [] := by
+      by_cases hb : s.blocked = []
+      · exact hb
+      · have := h2 hb; simp [hi] at this; omega
+    simp only [hi, hb, heldIds] at *
+    refine ⟨?_, ?_, ?_, ?_, ?_, ?_, ?_, ?_, ?_, ?_⟩ <;> (try dsimp only [heldIds])
+    · simp
+    · simp
+    · simp
+    · simpa using h4
+    · simpa using h5
+    · simp only [← List.append_assoc]
+      exact pairwise_snoc h6 h7
+    · intro i hi'
+      simp only [← List.append_assoc, List.mem_append, List.mem_singleton] at hi'
+      rcases hi' with hi' | hi'
+      · have := h7 i (by simpa using hi'); omega
+      · omega
+    · intro i; have hh := h8 i; count_tac hh
+    · exact h9
+    · exact h10
+  | cons x xs =>
+    by_cases ht : throwsAt g n 1 = true
+    · have : stepPopF s g n = (s, Res.threw) := by unfold stepPopF; simp [hi, ht]
+      rw [this]; exact h
+    · have ht' : throwsAt g n 1 = false := by simpa using ht
+      rw [stepPopF_eq s g n x xs hi ht']
+      obtain ⟨e1, e2⟩ := admitLoop_spec g n s.blocked 2
+      exact inv_popState s x xs _ _ _ h hi e1 e2
+
+theorem inv_pop (s : State) (hl : 0 < s.limit) (h : Inv s) : Inv (stepPop s).1 := inv_popF s 0 0 hl h
+
+theorem inv_upop (s : State) (c : Nat) (h : Inv s) : Inv (stepUpop s c).1 := by
+  obtain ⟨h1, h2, h3, h4, h5, h6, h7, h8, h9, h10⟩ := h
+  unfold stepUpop
+  cases hw : s.waiters with
+  | nil => exact ⟨h1, h2, h3, h4, h5, h6, h7, h8, h9, h10⟩
+  | cons w ws =>
+    simp only [hw] at *
+    refine ⟨h1, h2, ?_, h4, h5, ?_, ?_, ?_, ?_, ?_⟩ <;> (try dsimp only [heldIds])
+    · intro _; exact h3 (by simp)
+    · refine h6.sublist ?_
+      simp
+    · intro i hi; apply h7 i
+      simp only [List.mem_append, List.mem_cons] at *
+      rcases hi with hi | hi
+      · left; exact hi
+      · right; right; exact hi
+    · intro i; have hh := h8 i; count_tac hh
+    · intro i; have hh := h9 i; count_tac hh
+    · intro i; have hh := h10 i; count_tac hh
+
+theorem inv_upush (s : State) (c : Nat) (h : Inv s) : Inv (stepUpush s c).1 := by
+  obtain ⟨h1, h2, h3, h4, h5, h6, h7, h8, h9, h10⟩ := h
+  unfold stepUpush
+  cases hb : s.blocked with
+  | nil => exact ⟨h1, h2, h3, h4, h5, h6, h7, h8, h9, h10⟩
+  | cons b bs =>
+    simp only [hb, heldIds] at *
+    refine ⟨h1, ?_, ?_, ?_, ?_, h6, h7, ?_, ?_, ?_⟩ <;> (try dsimp only [heldIds])
+    · intro _; exact h2 (by simp)
+    · intro hw; have := h3 hw; simp at this
+    · intro i; have hh := h4 i; count_tac hh
+    · refine h5.sublist ?_
+      simp
+    · intro i; have hh := h8 i; count_tac hh
+    · intro i; have hh := h9 i; count_tac hh
+    · intro i; have hh := h10 i; count_tac hh
+
+theorem inv_upushF (s : State) (c g n : Nat) (h : Inv s) : Inv (stepUpushF s c g n).1 := by
+  unfold stepUpushF
+  split
+  · exact h
+  · exact inv_upush s c h
+
 theorem inv_destroy (s : State) (h : Inv s) : Inv (stepDestroy s).1 := by
-  obtain ⟨h1, h2, h3, h4, h5, h6, h7, h8, h9⟩ := h
+  obtain ⟨h1, h2, h3, h4, h5, h6, h7, h8, h9, h10⟩ := h
   unfold stepDestroy
   have e1 := popIds_map_push s.blocked (·.1) Out.canceled
   have e2 := pushIds_map_pop s.waiters id Out.canceled
   have e3 := popIds_map_pop s.waiters id Out.canceled
   have e4 := pushIds_map_push s.blocked (·.1) Out.canceled
-  simp only [id, List.map_id_fun', List.map_id_fun, List.map_id] at e2 e3
-  refine ⟨h1, ?_, ?_, ?_, ?_, ?_, ?_, ?_, ?_⟩ <;> (try dsimp only [heldIds])
+  have e5 := failedPushes_map_push s.blocked (·.1) Out.canceled (by simp)
+  have e6 := failedPushes_map_pop s.waiters id Out.canceled
+  simp only [id, List.map_id] at e2 e3 e6
+  refine ⟨h1, ?_, ?_, ?_, ?_, ?_, ?_, ?_, ?_, ?_⟩ <;> (try dsimp only [heldIds])
   · simp
   · simp
   · intro i; have hh := h4 i; simp only [e1, e2, e3, e4] at *; count_tac hh
@@ -276,8 +452,9 @@ theorem inv_destroy (s : State) (h : Inv s) : Inv (stepDestroy s).1 := by
   · intro i hi; apply h7 i
     simp only [List.mem_append, List.append_nil] at *
     left; exact hi
-  · intro i; have hh := h8 i; simp only [popIds_append, e1, e3, List.map_id] at *; count_tac hh
+  · intro i; have hh := h8 i; simp only [popIds_append, e1, e3] at *; count_tac hh
   · intro i; have hh := h9 i; simp only [pushIds_append, e2, e4] at *; count_tac hh
+  · intro i; have hh := h10 i; simp only [failedPushes_append, e5, e6] at *; count_tac hh
 
 theorem count_filterMap_eraseIdx {α} (f : α → Option Nat) (l : List α) (k : Nat) (e : α) (i : Nat)
     (h : l[k]? = some e) :
@@ -302,12 +479,12 @@ theorem count_filterMap_eraseIdx {α} (f : α → Option Nat) (l : List α) (k :
       omega
 
 theorem inv_deliver (s : State) (k : Nat) (h : Inv s) : Inv (stepDeliver s k).1 := by
-  obtain ⟨h1, h2, h3, h4, h5, h6, h7, h8, h9⟩ := h
+  obtain ⟨h1, h2, h3, h4, h5, h6, h7, h8, h9, h10⟩ := h
   unfold stepDeliver
   cases hk : s.inflight[k]? with
-  | none => exact ⟨h1, h2, h3, h4, h5, h6, h7, h8, h9⟩
+  | none => exact ⟨h1, h2, h3, h4, h5, h6, h7, h8, h9, h10⟩
   | some e =>
-    refine ⟨h1, h2, h3, h4, h5, h6, h7, ?_, ?_⟩ <;> dsimp only
+    refine ⟨h1, h2, h3, h4, h5, h6, h7, ?_, ?_, ?_⟩ <;> dsimp only
     · intro i; have hh := h8 i
       have := count_filterMap_eraseIdx Ev.popId? s.inflight k e i hk
       simp only [popIds, List.filterMap_append, List.count_append] at *
@@ -315,6 +492,10 @@ theorem inv_deliver (s : State) (k : Nat) (h : Inv s) : Inv (stepDeliver s k).1 
     · intro i; have hh := h9 i
       have := count_filterMap_eraseIdx Ev.pushId? s.inflight k e i hk
       simp only [pushIds, List.filterMap_append, List.count_append] at *
+      omega
+    · intro i; have hh := h10 i
+      have := count_filterMap_eraseIdx Ev.failedPush? s.inflight k e i hk
+      simp only [failedPushes, List.filterMap_append, List.count_append] at *
       omega
 
 theorem inv_step (s : State) (op : Op) (hl : 0 < s.limit) (h : Inv s) : Inv (step s op).1 := by
@@ -328,18 +509,34 @@ theorem inv_step (s : State) (op : Op) (hl : 0 < s.limit) (h : Inv s) : Inv (ste
     | exact inv_upush s _ h
     | exact inv_destroy s h
     | exact inv_deliver s _ h
+    | exact inv_pushThrow s h
+    | exact inv_pushMv s _ _ _ h
+    | exact inv_popF s _ _ hl h
+    | exact inv_upushF s _ _ _ h
+
+theorem limit_popF (s : State) (g n : Nat) : (stepPopF s g n).1.limit = s.limit := by
+  unfold stepPopF; split <;> (try split) <;> rfl
 
 theorem limit_step (s : State) (op : Op) : (step s op).1.limit = s.limit := by
   have hpush : ∀ v, (stepPush s v).1.limit = s.limit := by
     intro v; unfold stepPush; split <;> (try split) <;> rfl
-  have hpop : (stepPop s).1.limit = s.limit := by
-    unfold stepPop; split <;> (try split) <;> rfl
+  have hpop : (stepPop s).1.limit = s.limit := limit_popF s 0 0
   have hupop : ∀ c, (stepUpop s c).1.limit = s.limit := by
     intro c; unfold stepUpop; split <;> rfl
   have hupush : ∀ c, (stepUpush s c).1.limit = s.limit := by
     intro c; unfold stepUpush; split <;> rfl
   have hdel : ∀ k, (stepDeliver s k).1.limit = s.limit := by
     intro k; unfold stepDeliver; split <;> rfl
+  have hpt : (stepPushThrow s).1.limit = s.limit := by
+    unfold stepPushThrow; split <;> rfl
+  have hpm : ∀ v g n, (stepPushMv s v g n).1.limit = s.limit := by
+    intro v g n; unfold stepPushMv; split
+    · rfl
+    · exact hpush v
+  have hupf : ∀ c g n, (stepUpushF s c g n).1.limit = s.limit := by
+    intro c g n; unfold stepUpushF; split
+    · rfl
+    · exact hupush c
   unfold step
   cases op <;> simp only <;> (try split) <;> (try unfold stepLive) <;> (try simp only) <;>
     first
@@ -349,6 +546,10 @@ theorem limit_step (s : State) (op : Op) : (step s op).1.limit = s.limit := by
     | exact hupop _
     | exact hupush _
     | exact hdel _
+    | exact hpt
+    | exact hpm _ _ _
+    | exact limit_popF s _ _
+    | exact hupf _ _ _
 
 theorem inv_run (s : State) (ops : List Op) (hl : 0 < s.limit) (h : Inv s) : Inv (run s ops) := by
   induction ops generalizing s with
